@@ -255,3 +255,13 @@ def replay(ctx, path):
         shutil.rmtree(tmp, ignore_errors=True)
     print("replay: %s" % ([x.what for x in v[:3]] or "property holds on this pair"))
     return 1 if v else 0
+
+
+def corpus(ctx, entry):
+    rp = entry["replay"]
+    tmp = tempfile.mkdtemp(prefix="nptdms_verif_c09_")
+    try:
+        return check_pair(ctx, ctx.get_model() if ctx.build_ok else None, ctx.nptdms(), tmp, bytes.fromhex(rp["data"]), bytes.fromhex(rp["index"]),
+                          dict(comparisons=0, model=0, index_only=0), "corpus", False)
+    finally:
+        shutil.rmtree(tmp, ignore_errors=True)
